@@ -32,7 +32,7 @@ ASSUMPTIONS = [
     "slot conservation and partition always",
     "command payload schemas inside the NCP model are bellows' own tables",
 ]
-PROBES = ["op.subscribe", "op.unsubscribe", "op.startup", "answer.ok", "answer.reject", "answer.never", "already_subscribed", "table_full",
+PROBES = ["firmware_network_index_1", "firmware_network_index_None", "op.subscribe", "op.unsubscribe", "op.startup", "answer.ok", "answer.reject", "answer.never", "already_subscribed", "table_full",
           "unsubscribe_unknown", "timeout_raised", "startup_with_existing_entries"]
 
 GROUPS = (0x0101, 0x0202, 0x0303, 0x0404, 0x0505)
@@ -50,6 +50,11 @@ def plan(tier):
             for init in inits:
                 for first in range(len(alpha)):
                     sweeps.append(("enum", {"V": V, "size": size, "init": init, "first": first, "L": L, "ng": ng, "sched": False}))
+    # firmware flavours: the network index of an entry reported as 1, or not reported at all (old single-network firmware)
+    for V in (4, 8):
+        for netidx in (1, None):
+            for first in range(0, len(alpha), 2):
+                sweeps.append(("enum", {"V": V, "size": 2, "init": [[1, 1], [0, 0]], "first": first, "L": 2, "ng": ng, "sched": False, "netidx": netidx}))
     for V in (4, 8, 14):
         sweeps.append(("overlap", {"V": V, "sched": False}))
     return {
@@ -83,6 +88,11 @@ def run(scenario, params, tape, detail=False):
     rig = e3.StackRig(tape, version=V, sched=params.get("sched", True), fast_line=True, chunking=False, max_iters=3_000_000, max_vt=1e8)
     loop, ncp = rig.loop, rig.ncp
     viol, probes = [], {}
+    if "netidx" in params:
+        ncp.mc_netidx = params["netidx"]
+        probes["firmware_network_index_" + str(params["netidx"])] = 1
+    elif scenario == "random":
+        ncp.mc_netidx = (0, 0, 1, None)[tape.draw(4, "netidx")]
     sigs = set()
     nseq = [0]
     samples = []
